@@ -71,6 +71,33 @@ def tree_with_long_functions(rng):
     return out
 
 
+def wild_patterns(rng, files):
+    """gitignore syntax beyond the five classes (negation, **, leading slash, character classes): C12 is differential, scan_path
+    itself is the reference, so no independent semantics of these patterns is needed"""
+    comps = sorted({c for f in files for c in f.split("/")[:-1] if not c.startswith(".")} | {"src"})
+    names = sorted({f.split("/")[-1] for f in files})
+    out = []
+    for _ in range(rng.randint(1, 3)):
+        k = rng.random()
+        c, n = rng.choice(comps), rng.choice(names)
+        if k < 0.35:
+            # exclude a directory (bare name), then re-include something below it
+            out += [c, "!" + c + "/" + n] if rng.random() < 0.6 else [c, "!" + c + "/**/" + n, "!" + c + "/*/"]
+        elif k < 0.5:
+            out.append("**/" + n)
+        elif k < 0.6:
+            out.append("/" + c)
+        elif k < 0.7:
+            out.append(c + "/**")
+        elif k < 0.8:
+            out.append("*.[cj]*")
+        elif k < 0.9:
+            out += ["*.py", "!" + n]
+        else:
+            out.append("?" + n[1:] if len(n) > 1 else n)
+    return out
+
+
 class Recorder:
     """wrapper around the real CheckResult.add: which files were checked, with which measurements"""
 
@@ -135,6 +162,8 @@ def one_tree(ctx, rng):
 
     files = tree_with_long_functions(rng)
     exclusions = TG.random_exclusions(rng, files) if rng.random() < 0.7 else []
+    if rng.random() < 0.45:
+        exclusions = exclusions + wild_patterns(rng, files)
     use_gitignore = rng.random() < 0.3
     root = os.path.realpath(tempfile.mkdtemp(prefix="vf-c12-"))
     try:
